@@ -76,6 +76,7 @@ func c27(p *core.Program, r *core.Report) {
 	r.Rule("R4", "nil-safe decoding: a decode function that dereferences its wire-message parameter is never handed a singular nested message field (nil when absent from the bytes) unless the callee starts with a nil guard or the call is under a non-nil test; no direct dereference chain through such a field")
 	r.Rule("R5", "decoders reject instead of panicking: no decode* function in encoding/proto calls panic, and none indexes a repeated wire field with a constant without first testing its length")
 	r.Rule("R6", "codecs are projections: in encoding/proto a decoder fills field F of a pilosa struct only from the wire field of the same name (and an encoder fills wire field G only from the pilosa field of the same name), directly, through a conversion or through a nested decode/encode call; conditions guarding such an assignment may mention only that same field. Renames are a frozen table. A value computed from other fields, or two fields crossed, does not survive a round trip")
+	r.Rule("R7", "decoders fill on every path: in each decode* function of encoding/proto that fills two or more fields of a pilosa struct, every path that returns without error (return nil, a tail call of another decoder, or falling off the end) has filled every field that some path fills; a test of wire field F alone counts as deciding F on both outcomes, a nil guard on the parameter exempts the path, loops are taken at least once")
 	r.NotDecided = "value equality of round trips for all generated values (protobuf wire semantics, nil vs empty slices); that generated Unmarshal code rejects all malformed bytes"
 	pk := p.Pkg("")
 	pp := p.Pkg("encoding/proto")
@@ -89,6 +90,7 @@ func c27(p *core.Program, r *core.Report) {
 	c27R4(p, r, pp)
 	c27R5(p, r, pp)
 	c27R6(p, r, pp)
+	c27R7(p, r, pp)
 }
 
 func setDiff(a, b map[string]bool) []string {
@@ -1088,6 +1090,36 @@ func c27R6(p *core.Program, r *core.Report, pp *packages.Package) {
 				for ifs := range bj {
 					for ifs1, side := range bi {
 						if side == 1 && ifs1.Else == ast.Stmt(ifs) {
+							exclusive = true
+						}
+					}
+				}
+				// a default and its override: one of the two assigns a constant or nil
+				for _, a := range []asg{asgs[i], asgs[j]} {
+					if as1, ok := a.at.(*ast.AssignStmt); ok && len(as1.Rhs) == len(as1.Lhs) {
+						for k, l := range as1.Lhs {
+							if types.ExprString(ast.Unparen(l)) != a.key {
+								continue
+							}
+							if tv, ok := info.Types[as1.Rhs[k]]; ok && (tv.Value != nil || tv.IsNil()) {
+								exclusive = true
+							}
+						}
+					}
+				}
+				// the first assignment sits in a branch that ends in a return the second is not part of
+				for ifs, side := range bi {
+					if _, ok := bj[ifs]; ok {
+						continue
+					}
+					var blk *ast.BlockStmt
+					if side == 1 {
+						blk = ifs.Body
+					} else if b, ok := ifs.Else.(*ast.BlockStmt); ok {
+						blk = b
+					}
+					if blk != nil && len(blk.List) > 0 {
+						if _, ok := blk.List[len(blk.List)-1].(*ast.ReturnStmt); ok {
 							exclusive = true
 						}
 					}
